@@ -68,7 +68,7 @@ def run(ctx):
                          "non-trivial = schema with >= 3 nodes and >= 2 rules")
     ctx.assumptions += ["decided by comparison with an oracle computed from the abstract schema (differential), no Coq model of the AST builder: partial"]
     cases = []
-    n = 2500 if quick else 40000
+    n = 8000 if quick else 40000
     for _ in range(n):
         w = J.rand_rule_schema(rng, rng.randint(0, 4))
         add_notes(rng, w)
@@ -86,7 +86,7 @@ def run(ctx):
             ctx.nontrivial.add(text)
     # type shortcuts in value position: one name, several names, a name repeated - the or rule lists the alternatives exactly as written
     tys = [["@cat", "{}"], ["@dog", "1"], ["@fish", '"f"'], ["@k", '"kk"']]
-    for _ in range(200 if quick else 4000):
+    for _ in range(1000 if quick else 4000):
         props, ch = [], []
         for key in rng.sample(["a", "b", "c", "d", "e"], rng.randint(1, 4)):
             names = [rng.choice(["@cat", "@dog", "@fish"]) for _ in range(rng.choice([1, 1, 2, 2, 3, 4]))]
